@@ -11,6 +11,10 @@ DIAL_PATCHES = [
     {"name": "dial-checkInterface", "file": "internal/system/dialer.go", "pattern": r"\bcheckInterface\(ifi, ifi\.Addrs\)", "repl": "vkCheckInterface(ifi, ifi.Addrs)", "count": 1},
     {"name": "dial-dialNDP", "file": "internal/system/dialer.go", "pattern": r"\bdialNDP\(ifi\)", "repl": "vkDialNDP(ifi)", "count": 1},
 ]
+SYSCTL_PATCHES = [
+    {"name": "sysctl-read", "file": "internal/system/interface_linux.go", "pattern": r"os\.ReadFile\(file\)", "repl": "vkReadSysctl(file)", "count": 1},
+    {"name": "sysctl-write", "file": "internal/system/interface_linux.go", "pattern": r"os\.WriteFile\(sysctl\(iface, key\), in, 0o644\)", "repl": "vkWriteSysctl(sysctl(iface, key), in, os.FileMode(0o644))", "count": 1},
+]
 E2E_PATCHES = DIAL_PATCHES + [
     {"name": "os-NewState", "file": "internal/system/state.go", "pattern": r"func NewState\(\) State \{ return systemState\{\} \}", "repl": "func NewState() State { return vkNewState() }", "count": 1},
     {"name": "os-rtnetlink", "file": "internal/system/addresser_linux.go", "pattern": r"return &addresser\{execute: rtnlExecute\}", "repl": "return &addresser{execute: vkExecute}", "count": 1},
@@ -31,6 +35,11 @@ WHOLE = ("whole-process part: the unmodified main() of cmd/corerad runs as a chi
          "(staged copy) to a fake OS that reads a generated world file and logs every open/close/write/sysctl access. Real time: lifetimes "
          "that count down are compared with the interval implied by [spawn, ready] x [request, response]; a case over its 30 s budget is "
          "retried, then skipped and counted; a violation is reported only if it reproduces on a second run of the case")
+C11_SYSCTL = (" Sysctl part: the same enumerations (depth <= 3), the 1..300 recovery rounds and 1500 / 200000 random sequences with the real "
+              "system.NewState() and interface_linux.go: their two file primitives are renamed (staged copy) to a simulated /proc/sys that maps "
+              "/proc/sys/net/ipv6/conf/<interface>/<key> to a scratch directory, acts like the kernel (accepts 0/1 with optional newline, reads back "
+              "\"N\\n\", cannot create files), injects the scripted permission / not-exist / I/O failures and logs in the format of the recording State, "
+              "so the same host-state oracle applies; any other path, key or value, or a final file content different from the last successful write, is a violation.")
 E2E_RULE = {
     "C08": (" Whole-process part (36 / 1600 generated configurations x system states x signal {TERM, INT, HUP} x solicitations x wait 0..1.2 s): per "
             "advertising, forwarding interface with a non-zero lifetime the fake OS log must show exactly one zero-lifetime RA, to ff02::1, as the last "
@@ -336,16 +345,12 @@ PROPS = {
         "level_note": "Trusts testing/synctest and the in-memory Conn; message bodies are built as values (the decoder path is covered by C18's byte-level part).",
     },
     "C11": {
-        "pkg": "internal/system",
-        "files": ["system/zz_verif_policy_test.go"],
-        "run": "TestVerif_C11",
+        "parts": [
+            {"pkg": "internal/system", "files": ["system/zz_verif_policy_test.go"], "run": "TestVerif_C11", "patches": DIAL_PATCHES},
+            {"pkg": "internal/system", "files": ["system/zz_verif_policy_test.go"], "run": "TestVerif_C11sysctl", "patches": DIAL_PATCHES + SYSCTL_PATCHES},
+        ],
         "level": "fault_enumeration",
         "bubble": True,
-        "patches": [
-            {"name": "dial-lookupInterface", "file": "internal/system/dialer.go", "pattern": r"\blookupInterface\(d\.iface\)", "repl": "vkLookupInterface(d.iface)", "count": 1},
-            {"name": "dial-checkInterface", "file": "internal/system/dialer.go", "pattern": r"\bcheckInterface\(ifi, ifi\.Addrs\)", "repl": "vkCheckInterface(ifi, ifi.Addrs)", "count": 1},
-            {"name": "dial-dialNDP", "file": "internal/system/dialer.go", "pattern": r"\bdialNDP\(ifi\)", "repl": "vkDialNDP(ifi)", "count": 1},
-        ],
         "quick": {"shards": 8},
         "thorough": {"shards": 16},
         "rule": ("fault sequences on the real Dialer.Dial + the real dial() (its three OS-facing callees lookupInterface/checkInterface/dialNDP renamed to "
@@ -525,3 +530,4 @@ NOT_APPLICABLE = {}
 for _id, _txt in E2E_RULE.items():
     PROPS[_id]["rule"] = PROPS[_id]["rule"] + _txt
     PROPS[_id]["assumptions"] = list(PROPS[_id].get("assumptions", [])) + [WHOLE]
+PROPS["C11"]["rule"] = PROPS["C11"]["rule"] + C11_SYSCTL
